@@ -27,7 +27,7 @@ class SetEncoder(encoder.SetEncoder):
 
         if compType.typeId == univ.Choice.typeId and not compType.tagSet:
             if asn1Spec is None:
-                return component.getComponent().tagSet
+                return SetEncoder._tagSortKey(component.getComponent().tagSet)
             else:
                 # TODO: move out of sorting key function
                 names = [namedType.name for namedType in asn1Spec.componentType.namedTypes
@@ -37,10 +37,10 @@ class SetEncoder(encoder.SetEncoder):
                         '%s components for Choice at %r' % (len(names) and 'Multiple ' or 'None ', component))
 
                 # TODO: support nested CHOICE ordering
-                return asn1Spec[names[0]].tagSet
+                return SetEncoder._tagSortKey(asn1Spec[names[0]].tagSet)
 
         else:
-            return compType.tagSet
+            return SetEncoder._tagSortKey(compType.tagSet)
 
 
 TAG_MAP = encoder.TAG_MAP.copy()
